@@ -13,16 +13,19 @@ RuleSeqs == {rs \in UNION {[1..n -> Rules] : n \in 1..MaxChanges} : \A i \in 1..
 RECURSIVE Mids(_, _, _)
 \* files seen by change 1..n (as long as the steps succeed)
 Mids(f, rs, i) == IF i > Len(rs) THEN <<>> ELSE <<f>> \o Mids(RunOne(f, rs[i]).file, rs, i + 1)
+Without(rs, j) == [i \in 1..(Len(rs) - 1) |-> IF i < j THEN rs[i] ELSE rs[i + 1]]
 Class(f, rs) ==
   LET m == Mids(f, rs, 1) IN
   IF ~Chain(f, rs).ok THEN "fails"
+  \* the same change given twice, and giving it the second time matters
+  ELSE IF \E i, j \in 1..Len(rs) : i < j /\ rs[i] = rs[j] /\ Chain(f, Without(rs, j)) # Chain(f, rs) THEN "repeat"
   ELSE IF \E i \in 2..Len(rs) : Matches(m[i], rs[i]) /\ ~Matches(f, rs[i]) THEN "dependent"
   ELSE IF \E i \in 2..Len(rs) : ~Matches(m[i], rs[i]) /\ Matches(f, rs[i]) THEN "removed"
   ELSE "plain"
 All == {<<f, rs>> : f \in Pick(NFiles, Files), rs \in Pick(NSeqs, RuleSeqs)}
 Rec(x) == [pkg |-> x[1].pkg, body |-> x[1].body, rules |-> x[2], class |-> Class(x[1], x[2])]
 Emit == ndJsonSerialize(OutFile, SetToSeq(UNION {{Rec(x) : x \in Pick(PerClass, {y \in All : Class(y[1], y[2]) = c})} :
-                                                    c \in {"dependent", "removed", "fails", "plain"}}))
+                                                    c \in {"dependent", "removed", "fails", "plain", "repeat"}}))
 VARIABLE emitted
 EmitInit == /\ emitted = Emit /\ file0 = [pkg |-> "p", body |-> <<>>] /\ rules = <<>> /\ cur = file0 /\ k = 1 /\ st = "done" /\ log = <<>>
 EmitSpec == EmitInit /\ [][UNCHANGED <<emitted, vars>>]_<<emitted, vars>>
